@@ -11,8 +11,9 @@ EXTENDS Multimap, TraceKit
 
 VARIABLES l, viol,
           sawFF,   \* a key whose encoding starts with ff ff was inserted into this index
-          many     \* this index has held >= 100 entries
-tvars == <<ents, l, viol, sawFF, many>>
+          many,    \* this index has held >= 100 entries
+          sawMin   \* the smallest key of the domain (rank 0) was stored in this index
+tvars == <<ents, l, viol, sawFF, many, sawMin>>
 V(tag, ln, info) == <<[tag |-> tag, line |-> ln, info |-> info, kf |-> "new"]>>
 
 VK(tag, ln, info, kf) == <<[tag |-> tag, line |-> ln, info |-> info, kf |-> kf]>>
@@ -22,8 +23,15 @@ Pins(e, ln) == IF Has(e, "pb") /\ PinnedPages(e.pb) # PinnedPages(e.pa) THEN V("
 (* Known finding KF-C17-uniq-int (known_findings.json): the UNIQUE skip list index with INTEGER keys loses   *)
 (* entries (lookups and scans miss stored keys, removal then panics, a later lookup can hang); the smallest *)
 (* integer, which is also the start node's "minus infinity" key, is the shortest way to trigger it.         *)
-(* Signature = call site: index kind "uniq" with key type "int".  Any other kind or key type is reported.   *)
-UniqInt(e) == e.kind = "uniq" /\ e.ktype = "int"
+(* Root: that index stores integer keys as they are and its start node's "minus infinity" key IS the smallest  *)
+(* integer.  Signature: kind "uniq", key type "int", and the smallest integer (rank 0) is involved - the call   *)
+(* names it, a scan starts exactly at it, or it was stored earlier in the sequence.  Everything else about the   *)
+(* unique skip list over integers is judged strictly.                                                           *)
+UniqInt(e) == /\ e.kind = "uniq" /\ e.ktype = "int"
+              /\ \/ sawMin                                                 \* the smallest integer was stored: the list is corrupt from then on
+                 \/ (e.ev \in {"MPoint", "MInsert", "MDelete", "MUpdate"} /\ e.k = 0)   \* the call names the smallest integer
+                 \/ (e.ev = "MUpdate" /\ e.k2 = 0)
+                 \/ (e.ev = "MRange" /\ e.lo = 0)                          \* the scan starts exactly at it
 (* Known finding KF-C17-btree-ffff-stopper: B-tree over integer keys whose encoding starts with ff ff (>= 2147418112): *)
 (* such keys compare greater than the tree's 2-byte stopper key; after a split of the right-most leaf entries are    *)
 (* filed in / looked up from the wrong leaf.  Signature: kind btree, key type int, such a key was inserted (the       *)
@@ -49,11 +57,11 @@ RangeCheck(e, ln) ==
        ELSE IF known /\ \E i \in 1..(Len(e.rids) - 1) : KeyOf(e.rids[i]) > KeyOf(e.rids[i + 1])
          THEN VK("C17.order", ln, [kind |-> e.kind, got |-> e.rids], KFOf(e)) ELSE <<>>
 
-TInit == Init /\ l = 1 /\ viol = <<>> /\ sawFF = FALSE /\ many = FALSE
+TInit == Init /\ l = 1 /\ viol = <<>> /\ sawFF = FALSE /\ many = FALSE /\ sawMin = FALSE
 TNext ==
   /\ l <= TraceLen
   /\ LET e == TraceLog[l] IN
-     CASE e.ev = "Reset" -> ents' = {} /\ UNCHANGED viol /\ sawFF' = FALSE /\ many' = FALSE
+     CASE e.ev = "Reset" -> ents' = {} /\ UNCHANGED viol /\ sawFF' = FALSE /\ many' = FALSE /\ sawMin' = FALSE
        [] e.ev = "Create" -> UNCHANGED ents /\ viol' = AddViol(viol, Fail(e, l))
        [] e.ev = "MInsert" -> (IF e.res = "ok" THEN Insert(e.k, e.r) ELSE UNCHANGED ents) /\ viol' = AddViol(viol, Fail(e, l) \o Pins(e, l))
        [] e.ev = "MDelete" -> (IF e.res = "ok" THEN Delete(e.k, e.r) ELSE UNCHANGED ents) /\ viol' = AddViol(viol, Fail(e, l) \o Pins(e, l))
@@ -64,6 +72,7 @@ TNext ==
        IF e.ev = "Reset" THEN TRUE
        ELSE /\ sawFF' = (sawFF \/ (e.ev \in {"MInsert", "MUpdate"} /\ Has(e, "ffk")))
             /\ many' = (many \/ Cardinality(ents') >= 100)
+            /\ sawMin' = (sawMin \/ (e.ev = "MInsert" /\ e.k = 0) \/ (e.ev = "MUpdate" /\ e.k2 = 0))
   /\ l' = l + 1
 TSpec == TInit /\ [][TNext]_tvars
 Done == (l = TraceLen + 1) => Emit(viol, l - 1)
